@@ -63,9 +63,50 @@ def _local_assigns(body):
     return d
 
 
+def _renumber(x, off):
+    """Deep copy of a callee's rvalue with its locals moved to the fresh range starting at `off`."""
+    if isinstance(x, dict):
+        out = {}
+        for k, v in x.items():
+            if k == "place" and isinstance(v, dict) and "local" in v:
+                out[k] = {"local": v["local"] + off, "proj": list(v.get("proj") or [])}
+            else:
+                out[k] = _renumber(v, off)
+        return out
+    if isinstance(x, list):
+        return [_renumber(v, off) for v in x]
+    return x
+
+
+def _inline_const_calls(body, facts, d):
+    """A table written with a builder (`Operator::new("-", f).taking(NumParams::Exactly(2))`): the promoted constant calls
+    the crate's own `const fn`s.  A call of a local, straight-line function is read as its body with the parameters bound
+    to the arguments (the callee's assignments are added under fresh local numbers), so the entry is again an aggregate."""
+    nxt = len(body.locals) + 1000
+    for bi in range(len(body.blocks)):
+        t = body.blocks[bi]["term"]
+        if t["k"] != "Call" or not t.get("dest"):
+            continue
+        c = callee_of(t)
+        if not c or not c.get("local"):
+            continue
+        cb = facts.body(c["key"])
+        if cb is None or any(b_["term"]["k"] not in ("Return", "Goto", "Drop", "StorageDead") for b_ in cb.blocks):
+            continue
+        off = nxt
+        nxt += len(cb.locals) + 8
+        for i, a in enumerate(t["args"]):
+            d[off + 1 + i] = {"k": "Use", "op": a}
+        for _, _, st in cb.stmts():
+            if st["k"] == "Assign" and not st["place"]["proj"]:
+                d[off + st["place"]["local"]] = _renumber(st["rv"], off)
+        d[t["dest"]["local"]] = {"k": "Use", "op": {"k": "Move", "place": {"local": off, "proj": []}}}
+    return d
+
+
 def _resolve_operand(d, o):
     """Follow Use/Move chains to the defining rvalue or constant."""
-    for _ in range(50):
+    for _ in range(80):
         if o["k"] == "Const":
             return ("const", o["const"])
         l = o["place"]["local"]
@@ -74,6 +115,19 @@ def _resolve_operand(d, o):
             rv = d.get(l)
             if rv is None:
                 return ("?", o)
+            pr = o["place"]["proj"]
+            first = pr[0] if isinstance(pr[0], dict) else {}
+            if first.get("k") == "Field" and rv["k"] == "Use" and rv["op"]["k"] != "Const":
+                # a field of a value that is a copy of another place: the same field of that place
+                o = {"k": "Copy", "place": {"local": rv["op"]["place"]["local"], "proj": list(rv["op"]["place"].get("proj") or []) + list(pr)}}
+                continue
+            if first.get("k") == "Field" and rv["k"] == "Aggregate" and isinstance(first.get("i"), int) and first["i"] < len(rv.get("ops", [])):
+                fo = rv["ops"][first["i"]]
+                if fo["k"] == "Const":
+                    o = fo
+                else:
+                    o = {"k": fo["k"], "place": {"local": fo["place"]["local"], "proj": list(fo["place"].get("proj") or []) + list(pr[1:])}}
+                continue
             if rv["k"] == "Use":
                 o = rv["op"]
                 continue
@@ -172,7 +226,7 @@ def read_tables(facts):
                     ent_body = b
             if ent_body is None:
                 raise Inconclusive("entries array of table %s not found as a promoted constant" % key)
-            d = _local_assigns(ent_body)
+            d = _inline_const_calls(ent_body, facts, _local_assigns(ent_body))
             arr = None
             for l, rv in d.items():
                 if rv["k"] == "Aggregate" and rv.get("agg") == "Array":
